@@ -5,6 +5,8 @@ Runs under the build environment (PYTHONPATH = synchronised copy of /repo).
 Input: ndjson of cases; output: ndjson of traces (see spec/TraceTimeStep.tla;
 a trace is the case itself plus `res`, `sres`, `msg`).
 
+A line with a key `asks` is a HISTORY (see below); otherwise it is a case.
+
 A case (spec/TimeStep.tla): id, cfl [n, d], dt [n, d], fixed_h, late,
 arrays = [{has: {adapt, cfl, force, visc}, real: [particle], ghost:
 [particle]}], particle = {h, adapt, cfl, force, visc} with exact rationals
@@ -23,6 +25,23 @@ Protocol (what the solver really does, no more and no less):
            integrator.compute_time_step(undamped dt, cfl)
 The driver never calls update_min_max itself.  No code is generated: the
 acceleration evaluator is only used for its `particle_arrays`.
+
+A history (id, cfl, dt, fixed_h, ndamp, init = arrays, asks = [{ops, arrays,
+count}]) is run on ONE set of objects through the real Solver.solve():
+  * Solver(n_damp=ndamp, dt, adaptive_timestep=True, cfl), output disabled,
+    max_steps = number of asks - 1, tf far away;
+  * the real Integrator object; only its `step` (which needs the compiled
+    integrator) and `initial_acceleration` are replaced on the instance:
+    `step` applies the ops of the next ask to the real ParticleArrays
+    (add_particles / remove_particles / writing h - what stages, inlets and
+    outlets do) and then follows the solver protocol nnps.update_domain(),
+    nnps.update();
+  * solve() itself calls _get_timestep -> _compute_timestep ->
+    integrator.compute_time_step at count 0, 1, 2, ...; the three return
+    values are recorded through wrappers set on the instances (res, kept,
+    step).
+After every step the driver reads the real arrays back and compares them
+with the `arrays` of the ask (its own book-keeping must be right).
 """
 import json
 import math
@@ -43,7 +62,7 @@ from pysph.solver.solver import Solver
 
 PROPS = (('adapt', 'dt_adapt'), ('cfl', 'dt_cfl'), ('force', 'dt_force'),
          ('visc', 'dt_visc'))
-LIM = 32767
+LIM = 8191
 # The particles lie on the x axis; the NNPS is nevertheless built with dim=3:
 # on the pinned tree LinkedListNNPS with dim < 3 binned a single point (all
 # extents < 1e-12 are padded by +-0.5 in ALL three directions, flatten()
@@ -91,6 +110,30 @@ def seed_defect(name):
                 return np.inf                  # the old `dt_min > 0.0` test
             return r
         Integrator._get_explicit_dt_adapt = _get_explicit_dt_adapt
+    elif name == 'doubledamp':
+        # the fall-back keeps self.dt (already damped) instead of the
+        # undamped fixed step
+        def _compute_timestep(self):
+            undamped_dt = self._get_undamped_timestep()
+            dt = self.integrator.compute_time_step(undamped_dt, self.cfl)
+            if dt is None:
+                dt = self.dt
+            return dt
+        Solver._compute_timestep = _compute_timestep
+    elif name == 'cachenonempty':
+        # the set of non-empty arrays is remembered from the first call
+        def compute_h_minimum(self):
+            arrays = self.acceleration_evals[0].particle_arrays
+            if getattr(self, '_nonempty', None) is None:
+                self._nonempty = [pa for pa in arrays
+                                  if pa.get_number_of_particles() > 0]
+            hmin = np.inf
+            for pa in self._nonempty:
+                h = pa.get_carray('h')
+                if h.minimum < hmin:
+                    hmin = h.minimum
+            self.h_minimum = hmin
+        Integrator.compute_h_minimum = compute_h_minimum
     else:
         raise SystemExit('unknown defect %r' % name)
 
@@ -201,14 +244,146 @@ def run_case(case):
     return tr
 
 
+def check_arrays(pas, arrays, where):
+    """The real arrays must hold exactly what the history says (as multisets
+    per array: removal may reorder)."""
+    for pa, arr in zip(pas, arrays):
+        names = [('h', 'h')] + [(k, n) for k, n in PROPS if arr['has'][k]]
+        want = sorted(tuple(fl(p[k]) for k, n in names) for p in arr['real'])
+        n = pa.get_number_of_particles()
+        if n != len(arr['real']) or pa.num_real_particles != n:
+            raise RuntimeError('%s: array %s has %d particles, expected %d'
+                               % (where, pa.name, n, len(arr['real'])))
+        cols = [pa.get(nm) for k, nm in names]
+        got = sorted(tuple(float(c[i]) for c in cols) for i in range(n))
+        if got != want:
+            raise RuntimeError('%s: array %s holds %r, expected %r' % (
+                where, pa.name, got, want))
+
+
+def apply_op(pas, arrays, o):
+    pa = pas[o['a'] - 1]
+    has = arrays[o['a'] - 1]['has']
+    if o['op'] == 'add':
+        n0 = pa.get_number_of_particles()
+        props = dict(h=numpy.array([fl(p['h']) for p in o['parts']]),
+                     x=50.0 * o['a'] + n0 +
+                     numpy.arange(len(o['parts']), dtype=float))
+        for k, name in PROPS:
+            if has[k]:
+                props[name] = numpy.array([fl(p[k]) for p in o['parts']])
+        pa.add_particles(**props)
+    elif o['op'] == 'removeall':
+        n = pa.get_number_of_particles()
+        pa.remove_particles(numpy.arange(n, dtype=int))
+    elif o['op'] == 'removelast':
+        n = pa.get_number_of_particles()
+        pa.remove_particles(numpy.array([n - 1], dtype=int))
+    elif o['op'] == 'seth':
+        pa.h[o['i'] - 1] = fl(o['h'])
+    else:
+        raise RuntimeError('unknown op %r' % (o,))
+
+
+def run_history(hist):
+    init = dict(arrays=hist['init'], late=False)
+    pas = build_arrays(init)
+    cfl, dt = fl(hist['cfl']), fl(hist['dt'])
+    nnps = LinkedListNNPS(dim=NNPS_DIM, particles=pas)
+    integ = EulerIntegrator(**dict((pa.name, EulerStep()) for pa in pas))
+    solver = Solver(dim=1, integrator=integ, kernel=None, dt=dt, tf=1e12,
+                    n_damp=int(hist['ndamp']), adaptive_timestep=True,
+                    cfl=cfl, fixed_h=bool(hist['fixed_h']))
+    integ.set_acceleration_evals(ArraysOnly(pas))
+    integ.set_fixed_h(bool(hist['fixed_h']))
+    solver.particles = pas
+    solver.set_disable_output(True)
+    solver.set_print_freq(10 ** 9)
+    solver.set_max_steps(len(hist['asks']) - 1)
+
+    rec = []          # one entry per ask
+    cur = {}
+    state = dict(msg='')
+
+    def wrap(obj, name, key):
+        orig = getattr(obj, name)
+
+        def f(*a, **kw):
+            try:
+                r = orig(*a, **kw)
+            except Exception as ex:
+                cur[key] = dict(k='error', v=[0, 1])
+                state['msg'] = state['msg'] or '%s: %s' % (
+                    type(ex).__name__, ex)
+                raise
+            cur[key] = encode(r)
+            return r
+        setattr(obj, name, f)
+
+    wrap(integ, 'compute_time_step', 'res')
+    wrap(solver, '_compute_timestep', 'kept')
+    orig_get = solver._get_timestep
+
+    def get_timestep():
+        cur.clear()
+        cur['count'] = int(solver.count)
+        try:
+            r = orig_get()
+            cur['step'] = encode(r)
+        finally:
+            for key in ('res', 'kept', 'step'):
+                cur.setdefault(key, dict(k='error', v=[0, 1]))
+            rec.append(dict(cur))
+        return r
+    solver._get_timestep = get_timestep
+
+    def step(t, dt):
+        # the integrator's step: stages / inlets / outlets change the
+        # arrays, then the domain and the NNPS are updated
+        k = solver.count + 1                  # index of the coming ask
+        for o in hist['asks'][k]['ops']:
+            apply_op(pas, hist['asks'][k]['arrays'], o)
+        nnps.update_domain()
+        nnps.update()
+        check_arrays(pas, hist['asks'][k]['arrays'], 'ask %d' % k)
+    integ.step = step
+    integ.initial_acceleration = lambda t, dt: None
+
+    check_arrays(pas, hist['asks'][0]['arrays'], 'ask 0')
+    try:
+        solver.solve(show_progress=False)
+    except RuntimeError:
+        raise
+    except Exception as ex:
+        state['msg'] = state['msg'] or '%s: %s' % (type(ex).__name__, ex)
+    tr = dict(hist)
+    asks = []
+    for j, q in enumerate(hist['asks']):
+        q = dict(q)
+        r = rec[j] if j < len(rec) else {}
+        if r and r.get('count') != q['count']:
+            raise RuntimeError('ask %d made at count %r' % (j, r.get('count')))
+        for key in ('res', 'kept', 'step'):
+            q[key] = r.get(key, dict(k='missing', v=[0, 1]))
+        asks.append(q)
+    tr['asks'] = asks
+    tr['msg'] = state['msg'][:200]
+    return tr
+
+
 def main():
     inp, outp = sys.argv[1], sys.argv[2]
+    # the NNPS prints a warning whenever the bounding box grows (an inlet
+    # starting to emit): results go to the output file, stdout is dropped
+    sys.stdout.flush()
+    os.dup2(os.open(os.devnull, os.O_WRONLY), 1)
     if os.environ.get('C19_SEED_DEFECT'):
         seed_defect(os.environ['C19_SEED_DEFECT'])
     with open(inp) as fi, open(outp, 'w') as fo:
         for line in fi:
             case = json.loads(line)
-            fo.write(json.dumps(run_case(case)) + '\n')
+            tr = run_history(case) if 'asks' in case else run_case(case)
+            fo.write(json.dumps(tr) + '\n')
             fo.flush()
 
 
